@@ -200,9 +200,9 @@ def worker(modname, base, lo, hi, tier, deadline):
                 if len(cur) < SET_CAP:
                     cur.update(v)
         h = chash(case)
-        agg.distinct.add(h)
+        agg.distinct.add(int(h, 16))       # ints: a third of the memory
         for nt in res.get('nontrivial', ()):
-            agg.nontrivial.add(nt if isinstance(nt, str) else h)
+            agg.nontrivial.add(int(nt if isinstance(nt, str) else h, 16))
         agg.digests.append((i, '%d:%s' % (seed, res.get('digest', ''))))
         if len(agg.samples) < 1 and res.get('nontrivial'):
             agg.samples.append(mod.sample(case, res))
